@@ -4,7 +4,7 @@
 #include <stddef.h>
 extern "C" {
 void __CPROVER_assume(bool);
-void __CPROVER_assert(bool, const char*);
+void __CPROVER_assert(bool, const char*) __attribute__((nomerge));
 uint64_t nondet_u64();
 uint32_t nondet_u32();
 uint16_t nondet_u16();
